@@ -199,7 +199,7 @@ func checkC15(c *Ctx) {
 	c.Rule("R15.1", "frames on every static chain from a front-end entry to runtime.Callers = constant skips along it + the front end's preset; callerSkip enters once", 60)
 	c.Rule("R15.2", "conversions cancel: Sugar +k, Desugar −k, every other derive method leaves callerSkip unchanged", 8)
 	c.Rule("R15.3", "Logger.check is called only by exported Logger methods", 6)
-	c.Rule("R15.4", "one capture shared by caller and stack; attached under exactly addCaller / addStack; slog: stack iff record.Level >= addStackAt, caller from record.PC", 5)
+	c.Rule("R15.4", "one capture shared by caller and stack; attached under exactly addCaller / addStack; slog: stack iff record.Level >= addStackAt, caller from record.PC", 3)
 	c.Rule("R15.5", "whole stack: growth loop re-captures with the same skip while full; only the final frame is dropped", 3)
 
 	zp := ZapPath
@@ -620,76 +620,217 @@ func c15CheckCallers(c *Ctx) {
 
 func c15Attach(c *Ctx) {
 	fn := c.Method(ZapPath, "Logger", "check")
+	if !c.Anchor("R15.4", "zap.Logger.check", fn != nil) {
+		return
+	}
 	name := fn.String()
-	var cap *ssa.Call
-	n := 0
-	for _, cl := range Calls(fn) {
-		if IsCallTo(cl, "go.uber.org/zap/internal/stacktrace.Capture") {
-			cap, _ = cl.(*ssa.Call)
-			n++
+	rn := fn.Params[0].Name()
+	resolve := func(st *ConcState, v ssa.Value) ssa.Value {
+		for k := 0; k < 16 && v != nil; k++ {
+			if ct, ok := v.(*ssa.ChangeType); ok {
+				v = ct.X
+				continue
+			}
+			nx := st.Step(v)
+			if nx == nil {
+				break
+			}
+			v = nx
 		}
+		return v
 	}
-	if n != 1 || cap == nil {
-		c.Bad("R15.4", name, "single-capture", fn.Pos(), "expected exactly one Capture call, found %d", n)
-		return
-	}
-	addStackD := "Enabled(log.addStack, Check(log.core, ent, nil).Level)"
-	// depth: Full iff addStack
-	depthOK := false
-	if ph, ok := cap.Call.Args[1].(*ssa.Phi); ok && len(ph.Edges) == 2 {
-		for i, e := range ph.Edges {
-			v, _ := ConstInt(e)
-			o, _ := ConstInt(ph.Edges[1-i])
-			if v == 1 && o == 0 {
-				p := ph.Block().Preds[i]
-				depthOK = HasAtom(GuardsOfBlock(p), func(s string) bool { return strings.HasPrefix(s, "Enabled(log.addStack,") }) ||
-					HasAtom(edgeAtoms(p, ph.Block()), func(s string) bool { return strings.HasPrefix(s, "Enabled(log.addStack,") })
+	// isFrame: v is (a field of) the frame the first Next() of the captured stack returned
+	var isFrame func(st *ConcState, v ssa.Value, d int) bool
+	isFrame = func(st *ConcState, v ssa.Value, d int) bool {
+		if d > 6 {
+			return false
+		}
+		r := resolve(st, v)
+		switch x := r.(type) {
+		case *ssa.Extract:
+			cl, ok := x.Tuple.(*ssa.Call)
+			return ok && x.Index == 0 && IsCallTo(cl, "(*go.uber.org/zap/internal/stacktrace.Stack).Next")
+		case *ssa.Field:
+			return isFrame(st, x.X, d+1)
+		case *ssa.UnOp:
+			if x.Op == token.MUL {
+				if fa, ok := x.X.(*ssa.FieldAddr); ok {
+					return isFrame(st, fa.X, d+1)
+				}
+				if al, ok := x.X.(*ssa.Alloc); ok {
+					if sv := singleStoreLoose(al); sv != nil {
+						return isFrame(st, sv, d+1)
+					}
+				}
+			}
+		case *ssa.Alloc:
+			if sv := singleStoreLoose(x); sv != nil {
+				return isFrame(st, sv, d+1)
 			}
 		}
+		return false
 	}
-	c.Check(depthOK, "R15.4", name, "depth-full-iff-stack", cap.Pos(), "the capture is Full exactly when a stack trace is wanted, First otherwise")
-	_ = addStackD
-	// stores to ce.Caller / ce.Stack
-	var callerSt, stackSt *ssa.Store
-	AllInstrs(fn, func(i ssa.Instruction) {
-		if st, ok := i.(*ssa.Store); ok {
-			d := Desc(st.Addr)
-			if strings.HasSuffix(d, ".Entry.Caller") {
-				callerSt = st
-			}
-			if strings.HasSuffix(d, ".Entry.Stack") {
-				stackSt = st
-			}
+	var bad []string
+	nPaths := 0
+	for _, addCaller := range []int64{0, 1} {
+		ac := addCaller
+		seqs, trunc := ConcPaths(fn, ConcCfg{
+			Prune: true, MaxStates: 400000,
+			Conc: func(d string) (int64, bool) {
+				if d == rn+".addCaller" {
+					return ac, true
+				}
+				return 0, false
+			},
+			Branch: func(cond ssa.Value, taken bool, st *ConcState) string {
+				pol := taken
+				for k := 0; k < 8; k++ {
+					if u, ok := cond.(*ssa.UnOp); ok && u.Op == token.NOT {
+						cond, pol = u.X, !pol
+						continue
+					}
+					if nx := st.Step(cond); nx != nil {
+						cond = nx
+						continue
+					}
+					break
+				}
+				tf := func(n string, v bool) string { return n + "=" + map[bool]string{true: "T", false: "F"}[v] }
+				switch x := cond.(type) {
+				case *ssa.Call:
+					if x.Call.IsInvoke() && x.Call.Method.Name() == "Enabled" && strings.HasSuffix(st.Desc(x.Call.Value), ".addStack") {
+						return tf("stack-wanted", pol)
+					}
+				case *ssa.Extract:
+					if cl, ok := x.Tuple.(*ssa.Call); ok && x.Index == 1 && IsCallTo(cl, "(*go.uber.org/zap/internal/stacktrace.Stack).Next") {
+						return tf("more", pol)
+					}
+				case *ssa.BinOp:
+					if cl, ok := resolve(st, x.X).(*ssa.Call); ok && IsCallTo(cl, "(*go.uber.org/zap/internal/stacktrace.Stack).Count") {
+						if k, known := st.Int(x.Y); known && k == 0 && (x.Op == token.EQL || x.Op == token.NEQ || x.Op == token.GTR || x.Op == token.LEQ) {
+							return tf("no-frames", pol == (x.Op == token.EQL || x.Op == token.LEQ))
+						}
+					}
+					if IsNilConst(x.Y) {
+						if cl, ok := resolve(st, x.X).(*ssa.Call); ok && cl.Call.IsInvoke() && cl.Call.Method.Name() == "Check" {
+							return tf("accepted", pol == (x.Op == token.NEQ))
+						}
+					}
+				}
+				return ""
+			},
+			Event: func(in ssa.Instruction, st *ConcState) string {
+				switch x := in.(type) {
+				case *ssa.Call:
+					switch {
+					case IsCallTo(x, "go.uber.org/zap/internal/stacktrace.Capture"):
+						d := "?"
+						if k, ok := st.Int(Args(x)[1]); ok {
+							d = map[int64]string{0: "First", 1: "Full"}[k]
+						}
+						return "capture(" + d + ")"
+					case IsCallTo(x, "(*go.uber.org/zap/internal/stacktrace.Stack).Next"):
+						return "next"
+					case IsCallTo(x, "(*go.uber.org/zap/internal/stacktrace.Formatter).FormatFrame"):
+						if isFrame(st, Args(x)[1], 0) {
+							return "format(first)"
+						}
+						return "format(?" + st.Desc(Args(x)[1]) + ")"
+					case IsCallTo(x, "(*go.uber.org/zap/internal/stacktrace.Formatter).FormatStack"):
+						return "format(rest)"
+					}
+				case *ssa.Store:
+					d := st.Desc(x.Addr)
+					switch {
+					case strings.HasSuffix(d, ".Entry.Caller") || strings.HasSuffix(d, ".Caller"):
+						// the caller is built from the frame
+						ok := false
+						if isStructVal(x.Val) {
+							for _, f := range []string{"PC", "File", "Line", "Function"} {
+								if _, _, fv := st.FieldOf(x.Val, f); fv != nil && isFrame(st, fv, 0) {
+									ok = true
+								}
+							}
+							if cl, isCall := resolve(st, x.Val).(*ssa.Call); isCall && len(cl.Call.Args) > 0 {
+								for _, a := range cl.Call.Args {
+									if isFrame(st, a, 0) {
+										ok = true
+									}
+								}
+							}
+						}
+						if ok {
+							return "caller(first)"
+						}
+						return "caller(?" + fmt.Sprint(st.FieldsOf(x.Val)) + ")"
+					case strings.HasSuffix(d, ".Entry.Stack") || strings.HasSuffix(d, ".Stack"):
+						return "stack"
+					}
+				}
+				return ""
+			},
+		})
+		if trunc || len(seqs) == 0 {
+			c.Und("R15.4", name, "caller-and-stack", fn.Pos(), "path exploration of Logger.check incomplete (%d sequences, truncated=%v)", len(seqs), trunc)
+			return
 		}
-	})
-	if callerSt == nil || stackSt == nil {
-		c.Bad("R15.4", name, "attach", fn.Pos(), "expected stores to ce.Caller and ce.Stack")
-		return
-	}
-	filter := func(i ssa.Instruction) []string {
-		var out []string
-		for _, a := range AtomStrings(Guards(i)) {
+		for _, sq := range seqs {
+			toks := strings.Split(sq, " ; ")
+			facts := map[string]bool{}
+			var acts []string
+			for _, t := range toks {
+				if t == "" {
+					continue
+				}
+				if strings.Contains(t, "=") && !strings.Contains(t, "(") {
+					facts[t] = true
+				} else {
+					acts = append(acts, t)
+				}
+			}
+			if len(acts) == 0 && !facts["accepted=T"] && !facts["accepted=F"] {
+				continue // the level gate in front of everything
+			}
+			if facts["accepted=F"] {
+				if len(acts) > 0 {
+					bad = append(bad, "an entry no core accepted still captures or annotates: "+sq)
+				}
+				continue
+			}
+			nPaths++
+			wantStack := facts["stack-wanted=T"]
+			got := strings.Join(acts, " ; ")
+			var want []string
 			switch {
-			case a == "log.addCaller", strings.HasPrefix(a, "Enabled(log.addStack,"):
-				out = append(out, a)
+			case ac == 0 && !wantStack:
+				want = []string{""}
+			case facts["no-frames=T"]:
+				d := map[bool]string{true: "Full", false: "First"}[wantStack]
+				want = []string{"capture(" + d + ")"}
+			default:
+				d := map[bool]string{true: "Full", false: "First"}[wantStack]
+				w := "capture(" + d + ") ; next"
+				if ac == 1 {
+					w += " ; caller(first)"
+				}
+				if wantStack {
+					w += " ; format(first)"
+					if facts["more=T"] {
+						w += " ; format(rest)"
+					}
+					w += " ; stack"
+				}
+				want = []string{w}
+			}
+			if got != want[0] {
+				bad = append(bad, "addCaller="+itoa(int(ac))+": expected ["+want[0]+"], path does "+sq)
 			}
 		}
-		return out
 	}
-	fc, fs := filter(callerSt), filter(stackSt)
-	c.Check(len(fc) == 1 && fc[0] == "log.addCaller" && Dominates(cap, callerSt), "R15.4", name, "caller-iff-addCaller", callerSt.Pos(), "Entry.Caller is set exactly under addCaller, from the shared capture (feature guards %v)", fc)
-	c.Check(len(fs) == 1 && strings.HasPrefix(fs[0], "Enabled(log.addStack,") && Dominates(cap, stackSt), "R15.4", name, "stack-iff-addStack", stackSt.Pos(), "Entry.Stack is set exactly under addStack.Enabled(level), from the same capture (feature guards %v)", fs)
-	// stack starts at the same frame: FormatFrame(frame) of the first Next(), then FormatStack(stack)
-	var ff, fstk ssa.Instruction
-	for _, cl := range Calls(fn) {
-		if IsCallTo(cl, "(*go.uber.org/zap/internal/stacktrace.Formatter).FormatFrame") {
-			ff = cl
-		}
-		if IsCallTo(cl, "(*go.uber.org/zap/internal/stacktrace.Formatter).FormatStack") {
-			fstk = cl
-		}
+	if len(bad) > 3 {
+		bad = append(bad[:3:3], "… "+itoa(len(bad)-3)+" more")
 	}
-	c.Check(ff != nil && fstk != nil && Dominates(ff, fstk) && HasAtom(Guards(fstk), func(s string) bool { return strings.HasSuffix(s, "#1") && strings.HasPrefix(s, "Next(") }), "R15.4", name, "stack-starts-at-caller-frame", stackSt.Pos(), "the trace starts with the very frame used for the caller and continues with the rest iff more frames exist")
+	c.Check(len(bad) == 0 && nPaths >= 6, "R15.4", name, "caller-and-stack", fn.Pos(), "over %d paths of Logger.check (addCaller fixed to off/on, helpers inline): nothing is captured when neither caller nor stack is wanted; otherwise one capture, Full exactly when a stack is wanted; with no frames nothing is attached; else the caller (exactly under addCaller) is built from the first frame and the stack (exactly when wanted) starts with that same frame and continues with the rest iff more frames exist: %v", nPaths, bad)
 
 	// zapslog
 	h := c.Method(SlogPath, "Handler", "Handle")
@@ -715,8 +856,25 @@ func c15Attach(c *Ctx) {
 					atoms = append(atoms, a)
 				}
 			}
-			c.Check(len(atoms) == 1 && atoms[0] == "record.Level >= h.addStackAt", "R15.4", h.String(), "stack-iff-threshold", ss.Pos(), "a stack is attached exactly when record.Level >= addStackAt, compared on the slog level itself (guards %v)", atoms)
-			c.Check(Desc(ss.Val) == "Take((3 + h.callerSkip))" || Desc(ss.Val) == "Take((h.callerSkip + 3))", "R15.4", h.String(), "stack-skip-expr", ss.Pos(), "the trace is taken with skip 3 + callerSkip (%s)", Desc(ss.Val))
+			// a handler setting: a field of the handler, or of a settings struct it holds by value
+			hset := func(d, f string) bool {
+				return strings.HasPrefix(d, "h.") && (d == "h."+f || strings.HasSuffix(d, "."+f)) && !strings.ContainsAny(d, "()[ ")
+			}
+			thrOK := false
+			if len(atoms) == 1 && strings.HasPrefix(atoms[0], "record.Level >= ") {
+				thrOK = hset(strings.TrimPrefix(atoms[0], "record.Level >= "), "addStackAt")
+			}
+			c.Check(thrOK, "R15.4", h.String(), "stack-iff-threshold", ss.Pos(), "a stack is attached exactly when record.Level >= addStackAt, compared on the slog level itself (guards %v)", atoms)
+			skipOK := false
+			if d := Desc(ss.Val); strings.HasPrefix(d, "Take((") && strings.HasSuffix(d, "))") {
+				in := d[len("Take((") : len(d)-2]
+				if strings.HasPrefix(in, "3 + ") {
+					skipOK = hset(in[4:], "callerSkip")
+				} else if strings.HasSuffix(in, " + 3") {
+					skipOK = hset(in[:len(in)-4], "callerSkip")
+				}
+			}
+			c.Check(skipOK, "R15.4", h.String(), "stack-skip-expr", ss.Pos(), "the trace is taken with skip 3 + callerSkip (%s)", Desc(ss.Val))
 			ga := AtomStrings(Guards(cs))
 			// the frame is resolved from record.PC (directly or in a helper that is handed record.PC)
 			fromPC, frames := false, false
@@ -736,7 +894,13 @@ func c15Attach(c *Ctx) {
 					}
 				})
 			}
-			c.Check(containsS(ga, "h.addCaller") && fromPC && frames, "R15.4", h.String(), "caller-from-record-pc", cs.Pos(), "the caller is resolved with runtime.CallersFrames from the PC slog recorded, under addCaller (guards %v)", ga)
+			addCallerGuard := false
+			for _, a := range ga {
+				if hset(a, "addCaller") {
+					addCallerGuard = true
+				}
+			}
+			c.Check(addCallerGuard && fromPC && frames, "R15.4", h.String(), "caller-from-record-pc", cs.Pos(), "the caller is resolved with runtime.CallersFrames from the PC slog recorded, under addCaller (guards %v)", ga)
 		}
 	}
 }
